@@ -260,9 +260,14 @@ static int upipe_ts_sync_set_flow_def(struct upipe *upipe,
         return UBASE_ERR_ALLOC;
     }
     struct upipe_ts_sync *upipe_ts_sync = upipe_ts_sync_from_upipe(upipe);
-    UBASE_RETURN(uref_block_flow_set_size(flow_def_dup,
-                                          upipe_ts_sync->output_size))
-    UBASE_RETURN(uref_flow_set_def(flow_def_dup, OUTPUT_FLOW_DEF))
+    int err = uref_block_flow_set_size(flow_def_dup,
+                                       upipe_ts_sync->output_size);
+    if (ubase_check(err))
+        err = uref_flow_set_def(flow_def_dup, OUTPUT_FLOW_DEF);
+    if (unlikely(!ubase_check(err))) {
+        uref_free(flow_def_dup);
+        return err;
+    }
     upipe_ts_sync_store_flow_def(upipe, flow_def_dup);
     return UBASE_ERR_NONE;
 }
